@@ -947,11 +947,19 @@ class F:
     def model_type(self):
         t = self.t
         if self.none_as_undefined and isinstance(t, Union_):
-            alts = [a for a in t.alts if not (isinstance(a, Prim) and a.p == "none")]
+            alts = [a for a in flat_alts(t) if not (isinstance(a, Prim) and a.p == "none")]
             t = alts[0] if len(alts) == 1 else Union_(alts)
         if self.cons:
             t = Ann(t, self.cons)
         return t
+
+
+def flat_alts(t):
+    """alternatives of a union with nested unions flattened (as typing does)"""
+    out = []
+    for a in t.alts:
+        out += flat_alts(a) if isinstance(a, Union_) else [a]
+    return out
 
 
 class _Undef:
